@@ -26,7 +26,7 @@ func init() {
 			"tombstones at PRNG positions; arbitrary uint64 sequence numbers) written with sstable.Writer and read back with sstable.Reader: forward iteration, Seek for written keys/" +
 			"neighbours/before-first/after-last/block-boundary keys + following Next run, SeekToLast, Reader.Get for present and absent keys; then single-byte corruptions " +
 			"(bit flip/0x00/0xFF/+1) stratified over data blocks, bloom region, index and footer: open error, short iteration, or only written entries. " +
-			"distinct = hash(entry count, key class, block count); non-trivial = table read back completely and >= 1 corruption evaluated",
+			"Entries are handed to the writer in scratch buffers overwritten after each call; 12% of the large values are 1.1-2.6MB; every third seek re-uses the previous iterator. distinct = hash(entry count, key class, block count); non-trivial = table read back completely and >= 1 corruption evaluated",
 		Assumptions: []string{"keys non-empty (the format cannot represent an empty key), at most 65535 bytes", "a panic while reading a damaged table is reported as a violation (neither an error nor written entries)"},
 		NumCases: func(tier string) int {
 			if tier == "thorough" {
